@@ -12,20 +12,20 @@ def Op.isCall : Op → Bool
   | _ => false
 
 /-- "every report/OK event of the list goes to reporter `r`, and every report has severity `sev`". -/
-def EvsTo (r : Nat) (sev : Sev) (evs : List Ev) : Prop :=
-  ∀ ev ∈ evs, (∀ s r' rp, ev = Ev.report s r' rp → r' = r ∧ s = sev) ∧ (∀ r' e, ev = Ev.ok r' e → r' = r)
+def EvsTo (r okr : Nat) (sev : Sev) (evs : List Ev) : Prop :=
+  ∀ ev ∈ evs, (∀ s r' rp, ev = Ev.report s r' rp → r' = r ∧ s = sev) ∧ (∀ r' e, ev = Ev.ok r' e → r' = okr)
 
-theorem EvsTo.nil (r : Nat) (sev : Sev) : EvsTo r sev [] := by intro ev h; cases h
+theorem EvsTo.nil (r okr : Nat) (sev : Sev) : EvsTo r okr sev [] := by intro ev h; cases h
 
-theorem EvsTo.append {r : Nat} {sev : Sev} {a b : List Ev} (ha : EvsTo r sev a) (hb : EvsTo r sev b) :
-    EvsTo r sev (a ++ b) := by
+theorem EvsTo.append {r okr : Nat} {sev : Sev} {a b : List Ev} (ha : EvsTo r okr sev a) (hb : EvsTo r okr sev b) :
+    EvsTo r okr sev (a ++ b) := by
   intro ev hev
   rcases List.mem_append.mp hev with h | h
   · exact ha ev h
   · exact hb ev h
 
-theorem EvsTo.of_no_report {r : Nat} {sev : Sev} {evs : List Ev}
-    (h : ∀ ev ∈ evs, ev.isReport = false ∧ ev.isOk = false) : EvsTo r sev evs := by
+theorem EvsTo.of_no_report {r okr : Nat} {sev : Sev} {evs : List Ev}
+    (h : ∀ ev ∈ evs, ev.isReport = false ∧ ev.isOk = false) : EvsTo r okr sev evs := by
   intro ev hev
   obtain ⟨h1, h2⟩ := h ev hev
   constructor
@@ -44,7 +44,7 @@ theorem NF.append {r : Nat} {a b : List Ev} (ha : NF r a) (hb : NF r b) : NF r (
   · exact ha ev h
   · exact hb ev h
 
-theorem NF.toEvsTo {r : Nat} {evs : List Ev} (h : NF r evs) : EvsTo r .nonfatal evs := by
+theorem NF.toEvsTo {r okr : Nat} {evs : List Ev} (h : NF r evs) : EvsTo r okr .nonfatal evs := by
   intro ev hev
   rcases h ev hev with ⟨h1, h2, _⟩ | ⟨rp, rfl⟩
   · exact ⟨fun s r' rp he => (by subst he; cases h1), fun r' e he => (by subst he; cases h2)⟩
@@ -88,28 +88,28 @@ theorem killMock_spec (w : World) (o : Nat) (m : Mock) :
         exact Or.inr ⟨_, by rw [a4, hr]⟩
 
 /-- events of a mock call go to the installed reporter; every report is fatal. -/
-theorem callFn_evsTo (w : World) (o f : Nat) (a : Args) : EvsTo w.reporter .fatal (w.callFn o f a).2 := by
-  have hlog : ∀ l : List Nat, EvsTo w.reporter .fatal (l.flatMap (w.matchLog a)) := by
+theorem callFn_evsTo (w : World) (o f : Nat) (a : Args) : EvsTo w.reporter w.okReporter .fatal (w.callFn o f a).2 := by
+  have hlog : ∀ l : List Nat, EvsTo w.reporter w.okReporter .fatal (l.flatMap (w.matchLog a)) := by
     intro l
     apply EvsTo.of_no_report
     intro ev hev
     obtain ⟨e, i, rfl⟩ := flatMap_matchLog_all_with w a l ev hev
     exact ⟨rfl, rfl⟩
-  have htr : ∀ e r, EvsTo w.reporter .fatal (w.traceEv e a r) := by
+  have htr : ∀ e r, EvsTo w.reporter w.okReporter .fatal (w.traceEv e a r) := by
     intro e r
     apply EvsTo.of_no_report
     intro ev hev
     obtain ⟨t, rfl⟩ := traceEv_all_trace w e a r ev hev
     exact ⟨rfl, rfl⟩
-  have hone : ∀ rp, EvsTo w.reporter .fatal [w.rep .fatal rp] := by
+  have hone : ∀ rp, EvsTo w.reporter w.okReporter .fatal [w.rep .fatal rp] := by
     intro rp ev hev
     simp at hev; subst hev
     exact ⟨fun s r' rp' h => (by cases h; exact ⟨rfl, rfl⟩), fun r' e h => by cases h⟩
-  have hres : ∀ r, EvsTo w.reporter .fatal [Ev.result r] := by
+  have hres : ∀ r, EvsTo w.reporter w.okReporter .fatal [Ev.result r] := by
     intro r ev hev
     simp at hev; subst hev
     exact ⟨fun s r' rp' h => (by cases h), fun r' e h => by cases h⟩
-  have hbad : EvsTo w.reporter .fatal [Ev.badOp] := by
+  have hbad : EvsTo w.reporter w.okReporter .fatal [Ev.badOp] := by
     intro ev hev
     simp at hev; subst hev
     exact ⟨fun s r' rp' h => (by cases h), fun r' e h => by cases h⟩
@@ -245,12 +245,12 @@ theorem step_NF (w : World) (op : Op) (hop : op.isCall = false) : NF w.reporter 
         · exact hone _
     | tracer t => exact NF.nil _
     | killtracer t => exact NF.nil _
-    | setreporter r => exact hnone _ (by simp [Ev.isReport, Ev.isOk, Ev.isTrace])
+    | setreporter r ok => exact hnone _ (by cases ok <;> simp [Ev.isReport, Ev.isOk, Ev.isTrace])
   · simp only [hl]
     exact hbad
 
 theorem step_evsTo_nonfatal (w : World) (op : Op) (hop : op.isCall = false) :
-    EvsTo w.reporter .nonfatal (w.step op).2 := (step_NF w op hop).toEvsTo
+    EvsTo w.reporter w.okReporter .nonfatal (w.step op).2 := (step_NF w op hop).toEvsTo
 
 /-- operations other than a call never produce an OK report. -/
 theorem step_no_ok (w : World) (op : Op) (hop : op.isCall = false) : ∀ ev ∈ (w.step op).2, ev.isOk = false := by
